@@ -16,6 +16,7 @@
 
 #include <QCoreApplication>
 #include <QDomDocument>
+#include <QSslSocket>
 #include <QStringList>
 
 inline QDomDocument qxvParseStream(const QString &inner, const QString &defaultNs = QStringLiteral("jabber:client"))
@@ -52,6 +53,10 @@ public:
         QObject::connect(logger(), &QXmppLogger::message, this, [this](QXmppLogger::MessageType type, const QString &text) {
             if (type == QXmppLogger::SentMessage) {
                 sent << text;
+                sentEnc << (d->stream->socket() && d->stream->socket()->isEncrypted());
+                sentBytes += text.toUtf8().size();
+            } else if (type == QXmppLogger::ReceivedMessage) {
+                ++receivedCount;
             } else if (type == QXmppLogger::WarningMessage) {
                 warnings << text;
             }
@@ -112,12 +117,16 @@ public:
             r << s;
         }
         sent.clear();
+        sentEnc.clear();
         return r;
     }
 
     static void resetIdCounter() { QXmppStanza::s_uniqeIdNo = 0; }
 
     QStringList sent;
+    QList<bool> sentEnc;        // per entry of `sent`: was the socket encrypted when it was written
+    qint64 sentBytes = 0;       // bytes handed to the socket wrapper so far (all connections)
+    int receivedCount = 0;      // ReceivedMessage log records (one per successfully parsed read buffer)
     QStringList warnings;
 };
 
